@@ -361,6 +361,9 @@ func init() {
 				} {
 					cases = append(cases, Case{Q: q, Dec: "hand-introspection"})
 				}
+				// a literal type name that is also the name of a variable of the request (a literal is a literal)
+				cases = append(cases, Case{Q: `query ($N1: String) { lit: __type(name: "N1") { name kind } byVar: __type(name: $N1) { name kind } }`, Vars: map[string]interface{}{"N1": "V"}, Dec: "hand-introspection"},
+					Case{Q: `{ __type(name: "N1") { name kind } }`, Vars: map[string]interface{}{"N1": "V"}, Dec: "hand-introspection"})
 				cases = append(cases, Case{Q: `query ($s: Boolean!, $i: Boolean!) { __type(name: "N1") { ...F @skip(if: $s) kind } } fragment F on __Type { name @include(if: $i) }`,
 					Vars: map[string]interface{}{"s": true, "i": true}, Dec: "hand-introspection"},
 					Case{Q: `query ($s: Boolean!, $i: Boolean!) { __type(name: "N1") { ...F @skip(if: $s) kind } } fragment F on __Type { name @include(if: $i) }`,
